@@ -551,6 +551,6 @@ def pySizeof : Val → Nat
   | .sc .undef => 64
   | .sc (.int n) => 24 + 4 * intDigits n
   | .sc (.str s) => strSize s
-  | .list xs => 56 + 8 * xs.length
+  | .list xs => 56 + 8 * (xs.length + xs.length % 2)   -- `list(tuple)`: exact preallocation, rounded up to an even count
 
 end LiquidVerif.Limits
